@@ -1365,6 +1365,19 @@ def m_size_of(ev, vals, n, s, path, gens):
     return [(T.K(64, sz), s)]
 
 
+@suffix_model(r"slice::<impl \[T\]>::contains$")
+def m_slice_contains(ev, vals, n, s, path, gens):
+    """`[a, b, ..].contains(&x)` for a sequence of known integers: x == a || x == b || .."""
+    seq, x = ev.deref_val(vals[0], s), ev.deref_val(vals[1], s)
+    if not (isinstance(seq, tuple) and seq and seq[0] == "array" and all(T.is_k(e) for e in seq[1]) and is_bv(x)):
+        return None
+    w = _w(x)
+    c = T.FALSE
+    for e in seq[1]:
+        c = T.lor(c, T.cmp("eq", w, x, T.K(w, e[2])))
+    return [(c, s)]
+
+
 @suffix_model(r"ops::Range(Inclusive)?<Idx>::contains$")
 def m_range_contains(ev, vals, n, s, path, gens):
     r, x = ev.deref_val(vals[0], s), ev.deref_val(vals[1], s)
@@ -1553,6 +1566,9 @@ def m_bo_read(ev, vals, n, s, path, gens):
 @suffix_model(r"slice::index::<impl core::ops::Index(Mut)?<I> for \[T\]>::index(_mut)?$")
 def m_slice_index(ev, vals, n, s, path, gens):
     base, rg = ev.deref_val(vals[0], s), vals[1]
+    if path.endswith("index_mut") and isinstance(vals[0], tuple) and vals[0][:1] == ("ref",) and isinstance(base, tuple) and base[:1] == ("array",) \
+            and isinstance(rg, tuple) and rg and rg[0] == "struct" and rg[1].endswith("RangeFrom") and T.is_k(sfield(rg, "start")):
+        return [(("subslice_of", vals[0][1], sfield(rg, "start")[2]), s)]      # a mutable tail of a local array: keeps the place
     if isinstance(rg, tuple) and rg and rg[0] == "struct" and rg[1].endswith("RangeFrom"):
         return [(("subslice", base, sfield(rg, "start")), s)]
     if isinstance(base, tuple) and base and base[0] == "array" and T.is_k(rg) and rg[2] < len(base[1]):
@@ -1637,6 +1653,28 @@ def m_iter_filter(ev, vals, n, s, path, gens):
     if items is None:
         return _lazy_stage(ev, "filter", vals, s)
     return None
+
+
+@suffix_model(r"iter::Iterator::find$|as core::iter::Iterator>::find$")
+def m_iter_find(ev, vals, n, s, path, gens):
+    """`find` over a sequence of known elements with a predicate that decides each of them: the first hit, or None"""
+    items = _concrete_seq(ev, vals[0], s)
+    if items is None or len(items) > 64:
+        return None
+    st = s
+    for item in items:
+        r = _apply(ev, vals[1], [item], n, st, "bool")
+        if r is None:
+            return None
+        r = [(v, s2) for v, s2 in r if s2.feasible]
+        if len(r) != 1:
+            return None
+        v, st = r[0]
+        if v == T.TRUE or v == T.K(1, 1):
+            return [(some(item), st)]
+        if not (v == T.FALSE or v == T.K(1, 0)):
+            return None         # undecided for this element: leave the call symbolic
+    return [(NONE, st)]
 
 
 @suffix_model(r"iter::Iterator::fold$|as core::iter::Iterator>::fold$")
@@ -1789,6 +1827,48 @@ def m_concrete_index(ev, vals, n, s, path, gens):
 
 
 SUFFIX_MODELS.insert(0, SUFFIX_MODELS.pop())
+
+
+@suffix_model(r"array::<impl core::ops::IndexMut<I> for \[T; N\]>::index_mut$|vec::Vec<T, A> as core::ops::IndexMut<I>>::index_mut$")
+def m_index_mut_tail(ev, vals, n, s, path, gens):
+    """`&mut local[k..]` of a local array / vector whose elements are known: a mutable tail that keeps the place"""
+    rg = vals[1] if len(vals) > 1 else None
+    if isinstance(vals[0], tuple) and vals[0][:1] == ("ref",) and isinstance(rg, tuple) and rg and rg[0] == "struct" and rg[1].endswith("RangeFrom") \
+            and T.is_k(sfield(rg, "start")):
+        base = ev.read_place(vals[0][1], s)
+        if isinstance(base, tuple) and base[:1] == ("array",):
+            return [(("subslice_of", vals[0][1], sfield(rg, "start")[2]), s)]
+    return None
+
+
+@suffix_model(r"slice::<impl \[T\]>::iter_mut$")
+def m_iter_mut(ev, vals, n, s, path, gens):
+    """`iter_mut()` over (a tail of) a local array whose elements are known: one mutable reference per element"""
+    v = vals[0]
+    start = 0
+    if isinstance(v, tuple) and v and v[0] == "ref":
+        inner = ev.read_place(v[1], s)
+        if isinstance(inner, tuple) and inner and inner[0] == "subslice_of":
+            v = inner           # a reborrow of the tail held in a temporary
+    if isinstance(v, tuple) and v and v[0] == "subslice_of":
+        place, start = v[1], v[2]
+    elif isinstance(v, tuple) and v and v[0] == "ref":
+        place = v[1]
+    else:
+        return None
+    cur = ev.read_place(place, s)
+    if not (isinstance(cur, tuple) and cur and cur[0] == "array"):
+        return None
+    ety = "?"
+    return [(("iterc", tuple(("ref", ("pi", place, T.K(64, k), ety)) for k in range(start, len(cur[1]))), 0), s)]
+
+
+@suffix_model(r"iter::Iterator::zip$|iter::Iterator>::zip$")
+def m_iter_zip(ev, vals, n, s, path, gens):
+    a, b = _concrete_seq(ev, vals[0], s), _concrete_seq(ev, vals[1], s)
+    if a is None or b is None:
+        return None
+    return [(("iterc", tuple(struct("tuple", "", (("0", x), ("1", y))) for x, y in zip(a, b)), 0), s)]
 
 
 @suffix_model(r"slice::<impl \[T\]>::chunks_exact$")
